@@ -528,7 +528,7 @@ func (e *env) stress(rng *common.Rng, round int, nsummon, nnames int, dur time.D
 			continue
 		}
 		lbl, ok := map[string]string{"swamp.new": "LNew", "swamp.cancelling": "LCancelled", "swamp.close.gate": "LCloseBegin",
-			"swamp.destroy.gate": "LDBegin", "swamp.callback": "LCbStart"}[ev.Site]
+			"swamp.destroy.gate": "LDBegin", "swamp.callback": "LCbStart", "swamp.callback.done": "LCallback"}[ev.Site]
 		if !ok {
 			continue
 		}
